@@ -1,6 +1,6 @@
 SPECIFICATION LiveSpec
 CONSTANTS
-  Objs = {2, 3, 4, 5}
+  Objs = {2, 4, 5}
   WCs = {TRUE}
   Batches = {1}
   MaxEpoch = 3
